@@ -65,8 +65,10 @@ def scenarios(full):
                     continue
                 out.append((f"psk={psk} cert={cert} flight={fl}", False, psk, cert, fl))
     # the client DID offer a PSK, the rogue does not know it
-    for fl in ([[EE, FIN], [EE, CERT, CV, FIN]] if not full else flights(False)):
-        for psk in (0, 1):
+    # (a REAL ticket from a genuine earlier handshake), the rogue does not know it and either
+    # leaves pre_shared_key out of its ServerHello or claims to have selected it
+    for fl in ([[EE, FIN], [EE, CERT, CV, FIN]] if not full else flights(True)):
+        for psk in (None, 0, 1):
             out.append((f"client-offers-psk psk={psk} cert=rogue flight={fl}", True, psk, "rogue", fl))
     return out
 
@@ -123,4 +125,89 @@ def run(ctx, full=False, label="rogue-server"):
                  and not offers else ("unknown-psk" if offers else "no-certificate-proof"),
                  "processed": [m[0] for m in sent[1:]]})
     ctx.notes[label] = {"scenarios": n, "completed": hits}
+    hits += genuine_dfs(ctx, label + "-genuine")
+    return hits
+
+
+LEGAL = {False: [[EE, CERT, CV, FIN], [EE, CR, CERT, CV, FIN]], True: [[EE, FIN]]}
+
+
+def genuine_dfs(ctx, label="genuine-server-repetitions", max_len=8, max_rep=2):
+    """Key-holding GENUINE server (trusted certificate, and the PSK when the client
+    resumes) that sends ANY sequence of flight messages with repetitions — every
+    message up to `max_rep` times, up to `max_len` messages — CertificateVerify and
+    Finished recomputed over the transcript actually sent.
+
+    The sequence space is explored as a prefix tree driven by the real client: a
+    prefix is extended only while the client accepted it without exception and has
+    not completed, so every accepted ordering / omission / repetition is reached
+    (a refused prefix refuses all its extensions).  Oracle: the messages processed
+    when the client completes must be exactly a legal flight of RFC 8446."""
+    from aioquic import tls
+    D.tap_extract()
+    POST = tls.State.CLIENT_POST_HANDSHAKE
+    store = S.ticket_store()
+    pool = S.pool()
+    rsa = S.ident("rsa")
+
+    def plain():
+        return D.Pair(D.client(), D.server()), False
+
+    def client_auth():
+        c = D.client()
+        c.certificate, c.certificate_chain, c.certificate_private_key = S.ident("ec256")
+        return D.Pair(c, D.server()), False
+
+    def resumed():
+        return S.resumed_pair(store), True
+
+    def ticket_not_honoured():
+        # the client holds and offers a real ticket; the genuine server does its own ECDHE only
+        return S.resumed_pair(store, accept=False), False
+
+    total = hits = 0
+    for vname, mk in (("certificate", plain), ("client-auth", client_auth), ("resumed", resumed),
+                      ("ticket-not-honoured", ticket_not_honoured)):
+        frontier = [[]]
+        while frontier:
+            prefix = frontier.pop()
+            for t in (EE, CR, CERT, CV, FIN):
+                if prefix.count(t) >= max_rep or len(prefix) >= max_len:
+                    continue
+                seq = prefix + [t]
+                p, res = mk()
+                p.hello()
+                if p.serve() is not None or p.s.session_resumed != res:
+                    continue
+                f = D.Forger(p)
+                if res:
+                    f.key, f.sigalg = rsa[2], 0x0804        # the genuine server also has its long-term key
+                msgs = f.flight(seq, cr=pool[CR], cert=pool[CERT] if res else None)
+                exc, _ = D.feed(p.c, f.sh)
+                ok = exc is None
+                if ok:
+                    for m in msgs:
+                        exc, _ = D.feed(p.c, m)
+                        if exc is not None:
+                            ok = False
+                            break
+                total += 1
+                ctx.count((label, vname, tuple(seq)), True)
+                if not ok:
+                    continue
+                if p.c.state == POST:
+                    if seq not in LEGAL[res]:
+                        hits += 1
+                        ctx.witness(
+                            f"client ({vname}) completed the handshake on the server flight {seq} — not a legal TLS 1.3 "
+                            f"flight (legal: {LEGAL[res]}); every message was produced by a key-holding server, "
+                            f"CertificateVerify / Finished recomputed over the transcript sent"
+                            + ("; the client's peer certificate is None" if p.c._peer_certificate is None else ""),
+                            {"variant": vname, "flight": seq, "client_hello": p.client_hello.hex(),
+                             "server_messages": [f.sh.hex()] + [m.hex() for m in msgs],
+                             "session_resumed": p.c.session_resumed},
+                            {"oracle": "illegal-flight-completes", "level": "tls-dfs", "variant": vname, "flight": seq})
+                else:
+                    frontier.append(seq)
+    ctx.notes[label] = {"sequences": total, "illegal_completed": hits}
     return hits
